@@ -25,7 +25,7 @@ RULE = (
     "root or nested node; tolerance 0, 1e-9 or 1e-3; JSON or Simple grammar; 2-3 inputs with defaults, optional self-coupled "
     "variable whose body returns a new array or updates the received array in place; dense or sparse Jacobian filled in a new dict or through _init_jacobian, all blocks or only the requested ones; "
     "real or deliberately colliding (2-bucket) input hash) and a history of 3-14 operations: execute / linearize "
-    "(compute_all or differentiated subset, execute=True/False) at a point of a pool of 2-4 grid points (or at the point of the previous call), optionally perturbed "
+    "(compute_all or differentiated subset, execute=True or, right after a call at the same input or at any input once outputs exist, execute=False) at a point of a pool of 2-4 grid points (or at the point of the previous call), optionally perturbed "
     "by less than the tolerance, optionally omitting defaulted inputs, passed as fresh arrays or as the caller's persistent "
     "arrays rewritten in place; add_differentiated_inputs/outputs; rebinding of a default; cache.clear(); re-creation of the "
     "discipline on the same HDF5 file/node (singleton kept or forgotten). After the history every cached entry is requested "
